@@ -18,8 +18,10 @@ func init() {
 			"(R2) every microtask entry path performs exactly one +1 on the global count: the high-priority variants themselves, the clearance functions on exactly the paths where the request was not handed to the scheduler (all paths enumerated, event counting); " +
 			"(R3) the global -1 exists only in concludeMicroTask, which is reached only from runMicroTask's deferred closure and from the once-guarded done closure, and it also releases the per-module count and re-evaluates stop completion (shared with C05-R2); " +
 			"(R4) the limit setter enforces the minimum of 2 (finite-valuation propagation) and the blocking variants return the function's error. " +
+			"(R5) reporting an error never blocks: ModuleError.Report hands the report to the reporting channel in a non-blocking select (the recovery handlers call it before they conclude the microtask). " +
 			"NOT decided: the concurrency bound under real races between the scheduler and finishing tasks, exactly-once execution over all schedules.",
-		Rules: []ruleFn{c15R1, c15R2, c15R3, c15R4},
+		Rules: []ruleFn{c15R1, c15R2, c15R3, c15R4,
+			c15R5},
 	})
 }
 
@@ -458,5 +460,41 @@ func c15R4(c *Ctx, r *Report) {
 		r.Check(ok, rule, fnKey(rm)+" / returns the function's error", "the named result receives fn(ctx)", "runMicroTask does not return the error of the microtask function")
 	} else {
 		r.Undecided(rule, "modules.(*Module).runMicroTask", "anchor function missing")
+	}
+}
+
+func c15R5(c *Ctx, r *Report) { reportNeverBlocksRule(c, r, "C15-R5") }
+
+// reportNeverBlocksRule (shared with C06-R10): recovery handlers call Report before they release counters.
+func reportNeverBlocksRule(c *Ctx, r *Report, rule string) {
+	r.SetFloor(rule, 1)
+	fn := c.Func("modules.(*ModuleError).Report")
+	if fn == nil {
+		r.Undecided(rule, "modules.(*ModuleError).Report", "anchor function missing")
+		return
+	}
+	n := 0
+	eachInstr(fn, func(in ssa.Instruction) {
+		switch x := in.(type) {
+		case *ssa.Send:
+			n++
+			r.Bad(rule, fnKey(fn)+" / report hand-over does not block", "unconditional channel send in Report: a full or unread reporting channel blocks the recovery handler before it releases the work counters", c.Pos(x.Pos()))
+		case *ssa.Select:
+			hasSend := false
+			for _, st := range x.States {
+				if st.Dir == types.SendOnly {
+					hasSend = true
+				}
+			}
+			if !hasSend {
+				return
+			}
+			n++
+			r.Check(!x.Blocking, rule, fnKey(fn)+" / report hand-over does not block", "the send is a case of a select with a default branch",
+				"the select that sends the report has no default branch: Report waits for a reader (or another event) while the recovery handler still holds the work counters", c.Pos(x.Pos()))
+		}
+	})
+	if n == 0 {
+		r.Undecided(rule, fnKey(fn), "no hand-over to the reporting channel found")
 	}
 }
